@@ -66,6 +66,14 @@ def png(w: int, h: int, seed: int = 0) -> bytes:
     return _PNG_SIG + _png_chunk(b"IHDR", ihdr) + _png_chunk(b"IDAT", zlib.compress(bytes(raw), 9)) + _png_chunk(b"IEND", b"")
 
 
+def png_with_declared_size(data: bytes, w: int, h: int) -> bytes:
+    """Rewrite the IHDR of a PNG produced by png() so that it declares w x h (CRC kept valid); the pixel data is left as it is.
+    Used for degenerate headers (a declared dimension of 0) that a reader has to survive."""
+    assert data[:8] == _PNG_SIG and data[12:16] == b"IHDR"
+    ihdr = struct.pack(">II", w, h) + data[24:29]
+    return data[:8] + _png_chunk(b"IHDR", ihdr) + data[33:]
+
+
 # ----------------------------------------------------------------------------------------------
 # GIF
 # ----------------------------------------------------------------------------------------------
